@@ -329,6 +329,8 @@ def save_and_load(net, fmt, tmpdir, fault, ctx):
             return None, e, s.fired, False
         if fault and fault["where"] == "close":
             return None, None, False, False         # a caller-owned stream is closed by the caller: no fault
+        if s.fired:
+            return None, None, True, False          # the write error was swallowed: judged by the caller
         r = s.reader()
         return (pp.from_pickle(r) if binary else pp.from_json(r)), None, s.fired, False
     if fmt in ("json_path", "pickle_path"):
@@ -355,7 +357,7 @@ def save_and_load(net, fmt, tmpdir, fault, ctx):
             if fault:
                 del fio.open
         if state["file"] is not None and state["file"].fired:
-            fired = True
+            return None, None, True, False          # the stream error was swallowed: judged by the caller
         return (pp.from_pickle(p) if binary else pp.from_json(p)), None, fired, False
     if fmt in ("excel", "sqlite"):
         # these formats hold element data only: object-valued tables (group member lists, controller and
